@@ -59,6 +59,10 @@ func (x *Exec) atomicIntrinsic(fn *ssa.Function, args []Value) (Value, bool) {
 			}
 		}
 	}
+	// A second scheduling point AFTER the operation lets other threads run
+	// between an atomic access and the plain (unsynchronised) code that
+	// follows it - the window in which "check atomically, then act" races live.
+	defer x.atomicPoint()
 	switch op {
 	case "Load":
 		x.atomicPoint()
